@@ -27,10 +27,11 @@ terms and in instruction operands) and where not (comparison of two strings).
     shares the source's table; character-constant index not translated; RESTORE keeps the active page; CHARSET without
     arguments resets all pages; characters of a string argument translated) - TLC must refute every one (by CopyAtCreation,
     MachineIsFold, RestoreReestablishes, OnlyActiveWritten, MachineIsFold).
-(G) CharMap_Gen2q.cfg (quick: the 10 k histories of exactly 2 statements over OpsQuick, a seeded share of 3.3 k replayed;
+(G) CharMap_Gen2q.cfg (quick: the 10 k histories of exactly 2 statements over OpsQuick, a seeded share of ~2 k replayed;
     thorough CharMap_Gen2.cfg: + the capture statements, x {default, -U}: 22 k), CharMap_Gen3p.cfg (all 1 728 histories of 3
     statements over OpsPages = 12 statements concentrating CODEPAGE with and without source / SAVE / RESTORE / few edits;
-    thorough CharMap_Gen4p.cfg: 4 statements, 20.7 k) and CharMap_GenSim.cfg (simulated histories of 5
+    thorough CharMap_Gen4p.cfg: 4 statements, 20.7 k), CharMap_Gen4s.cfg (all 1 296 histories of 4 statements over the 6
+    statements on which a wrong copy source / a RESTORE without effect become visible) and CharMap_GenSim.cfg (simulated histories of 5
     statements, statement class first, erroneous statements avoided; quick 1 000, thorough CharMap_GenSimFull.cfg 12 000 of
     6 statements over 1 000 statements).  For every history TLC prints, for the point in front of the first and behind every statement, seven probes
     with their element values under the active table of the declarative fold (string of all 8 window characters, 2-character
@@ -279,6 +280,7 @@ def run(rep, bld, tier):
     devs = ["alias", "rawindex", "norestore", "resetall", "strtrans"]
     jobs = [("mc", c, w) for c, w in mc] + [("dev", "CharMap_MC_dev_%s.cfg" % d, 1) for d in devs]
     jobs += [("gen", "CharMap_Gen2q.cfg" if quick else "CharMap_Gen2.cfg", 1), ("gen", "CharMap_Gen3p.cfg" if quick else "CharMap_Gen4p.cfg", 1),
+             ("gen", "CharMap_Gen4s.cfg", 1),
              ("sim", "CharMap_GenSim.cfg" if quick else "CharMap_GenSimFull.cfg", 1)]
 
     def do(j):
